@@ -14,6 +14,7 @@ import Driver.ExprDrv
 import Driver.Minimizer
 import Driver.Assign
 import Driver.ArrayADDrv
+import Driver.Misuse
 /-! `adept_model <family>`: line protocol on stdin/stdout, one result line per input line.
     Every import of this file must stay free of Mathlib (the driver is linked natively). -/
 open Adept Adept.Drv
@@ -35,4 +36,5 @@ def main (args : List String) : IO UInt32 := do
   | ["minimizer"] => runFamily MinimizerDrv.step (); return 0
   | ["assign"] => runFamily AssignDrv.step {}; return 0
   | ["arrayad"] => runFamily ArrayADDrv.step (); return 0
+  | ["misuse"] => runFamily MisuseDrv.step {}; return 0
   | _ => IO.eprintln "usage: adept_model <family>"; return 2
